@@ -167,7 +167,47 @@ def _sec_commute(tree, t):
             raise TranslateError("do_commute: %s not found" % needle)
 
 
-SECTIONS = [("__mul__", _sec_mul), ("ConvertPauli", _sec_convert), ("integer_to_binary", _sec_binary),
+_INDEX_DTYPE_MAX = {"int8": 2 ** 7 - 1, "uint8": 2 ** 8 - 1, "int16": 2 ** 15 - 1, "uint16": 2 ** 16 - 1,
+                    "int32": 2 ** 31 - 1, "uint32": 2 ** 32 - 1, "short": 2 ** 15 - 1, "byte": 2 ** 7 - 1, "ubyte": 2 ** 8 - 1}
+_INDEX_DTYPE_WIDE = {"int", "int64", "intp", "int_", "uint64", "longlong"}
+
+
+def _sec_collapse(tree, t):
+    """collapse appends the row number as an extra column before sorting:
+         all_terms = np.concatenate((operator, np.linspace(0, len(operator) - 1, len(operator), dtype=D).reshape(...)), axis=1)
+       and uses it to index `factors`.  D decides how many rows can be numbered: Python int / 64-bit -> no bound below
+       anything numpy can hold (None); a small fixed dtype -> its maximum; the dtype of the argument -> 127 (the array form
+       is documented and produced as int8, the smallest dtype the function accepts)."""
+    col = find_def(tree, "collapse", cls="MultiformOperator")
+    arg = col.args.args[0].arg
+    at = local_assign(col, "all_terms")
+    lins = [n for n in ast.walk(at) if isinstance(n, ast.Call) and isinstance(n.func, ast.Attribute) and n.func.attr in ("linspace", "arange")]
+    if not (isinstance(at, ast.Call) and isinstance(at.func, ast.Attribute) and at.func.attr == "concatenate" and len(lins) == 1):
+        raise TranslateError("collapse: all_terms is not np.concatenate((operator, <row numbers>), axis=1)")
+    kw = {k.arg: k.value for k in lins[0].keywords}
+    if "dtype" not in kw:
+        raise TranslateError("collapse: the row-number column has no explicit dtype (linspace would give floats)")
+    d = kw["dtype"]
+    name = d.id if isinstance(d, ast.Name) else (d.attr if isinstance(d, ast.Attribute) else
+                                                  (d.value if isinstance(d, ast.Constant) and isinstance(d.value, str) else None))
+    if isinstance(d, ast.Attribute) and d.attr == "dtype" and _attr_chain(d) == arg + ".dtype":
+        t["collapse_index_max"] = 2 ** 7 - 1
+        t["collapse_index_dtype"] = arg + ".dtype"
+    elif name in _INDEX_DTYPE_WIDE:
+        t["collapse_index_max"] = None
+        t["collapse_index_dtype"] = name
+    elif name in _INDEX_DTYPE_MAX:
+        t["collapse_index_max"] = _INDEX_DTYPE_MAX[name]
+        t["collapse_index_dtype"] = name
+    else:
+        raise TranslateError("collapse: dtype of the row-number column not recognised: %s" % ast.unparse(d))
+    # the column must be what indexes the factors
+    src = ast.unparse(col)
+    if "factors[sorted_terms[:, -1]]" not in src:
+        raise TranslateError("collapse: factors are no longer picked through the row-number column (sorted_terms[:, -1])")
+
+
+SECTIONS = [("__mul__", _sec_mul), ("collapse", _sec_collapse), ("ConvertPauli", _sec_convert), ("integer_to_binary", _sec_binary),
             ("do_commute", _sec_commute)]
 
 # last known good content of every section (tree at the `fix:` commits for C16); used ONLY to keep the
@@ -179,6 +219,8 @@ FALLBACK = {
     "prod_name": "prod",
     "pauli_translation": [("I", 0, (0, 0)), ("Z", 1, (0, 1)), ("X", 2, (1, 0)), ("Y", 3, (1, 1))],
     "commute_reduction": "any",
+    "collapse_index_max": None,
+    "collapse_index_dtype": "int",
 }
 
 
@@ -230,5 +272,8 @@ def emit(t, fallback=()):
                            for (l, n, b) in t["pauli_translation"]) + "].", "",
          "(* `not np.all(term_bool)` (true) or `not np.any(term_bool)` (false) in do_commute *)",
          "Definition do_commute_reduces_with_all : bool := %s." % ("true" if t["commute_reduction"] == "all" else "false"),
-         'Definition phase_product_function : string := "%s"%%string.' % t["prod_name"]]
+         'Definition phase_product_function : string := "%s"%%string.' % t["prod_name"], "",
+         "(* largest row number the index column of MultiformOperator.collapse can hold (dtype %s); None = no bound *)" % t["collapse_index_dtype"],
+         "Definition collapse_index_max : option N := %s." % (
+             "None" if t["collapse_index_max"] is None else "Some %d%%N" % t["collapse_index_max"])]
     return "\n".join(L) + "\n"
